@@ -103,6 +103,9 @@ MoveTail(k) ==
    /\ UNCHANGED <<size, mem, head>>
    /\ ret' = <<"movetail", k, Take(q, k)>>
 
+\* typed ring: a push / emplace whose element constructor throws - the ring is as before (no phantom element)
+PutcFail == UNCHANGED <<size, q, mem, head, tail>> /\ ret' = <<"putcfail", 1>>
+
 Clean ==
    /\ q' = <<>> /\ head' = 0 /\ tail' = 0 /\ UNCHANGED <<size, mem>>
    /\ ret' = <<"clean">>
